@@ -154,14 +154,15 @@ class Network:
         Setup the processes forming the network, however they are not started yet.
         """
         mp.set_start_method("spawn", force=True)
+        self._process_specs = []
         for node in self.nodes:
-            process_virtual = mp.Process(
-                target=start_vnode, args=(node, self.name, get_log_level()), name="VirtNode {}".format(node)
+            self._process_specs.append(
+                dict(target=start_vnode, args=(node, self.name, get_log_level()), name="VirtNode {}".format(node))
             )
-            process_qnodeos = mp.Process(
-                target=start_qnodeos, args=(node, self.name, get_log_level()), name="QnodeOSNode {}".format(node)
+            self._process_specs.append(
+                dict(target=start_qnodeos, args=(node, self.name, get_log_level()), name="QnodeOSNode {}".format(node))
             )
-            self.processes += [process_virtual, process_qnodeos]
+        self.processes = [mp.Process(**spec) for spec in self._process_specs]
 
     def start(self, wait_until_running=False):
         """
@@ -171,8 +172,12 @@ class Network:
         :param wait_until_running: bool
         """
         self._logger.info("Starting network with name {}".format(self.name))
-        for p in self.processes:
+        for i, p in enumerate(self.processes):
             if not p.is_alive():
+                if p.pid is not None:
+                    # This process has been started before and has ended (e.g. by stop()).
+                    # A Process object can only be started once, so use a fresh one.
+                    p = self.processes[i] = mp.Process(**self._process_specs[i])
                 self._logger.debug("Starting process {}".format(p.name))
                 p.deamon = True
                 p.start()
